@@ -1651,8 +1651,11 @@ impl FrameHeader {
             verify_range!("offset", n, ..(1u64 << 36))?;
         }
         let block_size_spec = BlockSizeSpec::from_size(block_size as u16);
-        let sample_size_spec =
-            SampleSizeSpec::from_bits(bits_per_sample as u8).ok_or_else(|| {
+        // checked before narrowing: 264 bits must not be taken for 8 bits.
+        let sample_size_spec = u8::try_from(bits_per_sample)
+            .ok()
+            .and_then(SampleSizeSpec::from_bits)
+            .ok_or_else(|| {
                 VerifyError::new("bits_per_sample", "must be one of a supported value.")
             })?;
         verify_true!(
@@ -1661,7 +1664,9 @@ impl FrameHeader {
             "32-bit encoding is not supported currently."
         )?;
         channel_assignment.verify()?;
-        let sample_rate_spec = SampleRateSpec::from_freq(sample_rate as u32)
+        let sample_rate_spec = u32::try_from(sample_rate)
+            .ok()
+            .and_then(SampleRateSpec::from_freq)
             .ok_or_else(|| VerifyError::new("sample_rate", "must be in a supported range."))?;
         let mut ret = Self::from_specs(
             block_size_spec,
